@@ -191,9 +191,9 @@ func (r *Run) global(g *ssa.Global) value {
 		var cell value
 		switch name {
 		case "os.Stderr":
-			cell = r.newToken("stderr", nil)
+			cell = r.streamToken("stderr")
 		case "os.Stdout":
-			cell = r.newToken("stdout", nil)
+			cell = r.streamToken("stdout")
 		case "io.Discard":
 			cell = iface{v: r.newToken("discard", nil)}
 		case "flag.Usage", "flag.CommandLine", "os.Args":
@@ -212,6 +212,34 @@ func (r *Run) global(g *ssa.Global) value {
 	cell := zero(mustDeref(g.Type()))
 	r.globals[g] = &cell
 	return &cell
+}
+
+// streamToken models os.Stdout / os.Stderr: Write and WriteString record a print effect; standard
+// output may reject the write when the harness says so (SetEnv("stdout.faulty", true)).
+func (r *Run) streamToken(class string) *absObj {
+	tok := r.newToken(class, nil)
+	write := func(r *Run, self *absObj, args []value) value {
+		var out value
+		switch x := args[0].(type) {
+		case string, *Term, runesV:
+			out = x
+		default:
+			out = bytesToStr(args[0])
+		}
+		r.Effects = append(r.Effects, Effect{Op: "print:" + class, Args: []value{out}})
+		if class == "stderr" {
+			r.Stderr = append(r.Stderr, out)
+		}
+		if class == "stdout" && r.Env["stdout.faulty"] == true {
+			if err := r.nondetErr("stdout.err"); !err.(iface).isNil() {
+				return tuple{0, err}
+			}
+		}
+		return tuple{lenV(out), iface{}}
+	}
+	tok.meth["Write"] = write
+	tok.meth["WriteString"] = write
+	return tok
 }
 
 // ensureInit runs the package initialiser of an interpreted package once per run.
